@@ -154,6 +154,7 @@ func c18Builders(p *Prog, r *Report) {
 	}
 	c18PointerToInterface(p, r)
 	c18CustomJSONGuards(p, r, "T5g")
+	customDecoderFresh(p, r, "T5d")
 	r.Floor("R6f", "CmdType.SetDataForFunction call sites in the builders", nCmd, 1)
 	r.Floor("R6f", "FilterType.SetDataForFunction call sites in the builders", nFlt, 2)
 }
